@@ -147,7 +147,10 @@ def prefixes : List String := ["names."]
     | none => "bad-case"
   else if op == "names.postenc" then
     match (getField fs "hdr").bind parseHdr, parseNames fs with
-    | some h, some ns => natsHex (postEncodeWith tbl h ns)
+    | some h, some ns =>
+      match postEncodeCheckedWith tbl h ns with
+      | .ok b => natsHex b
+      | _ => "panic"
     | _, _ => "bad-case"
   else if op == "names.postread" then
     match (getField fs "b").bind hexNats with
@@ -166,11 +169,17 @@ def prefixes : List String := ["names."]
     | none => "bad-case"
   else if op == "names.enc" then
     match (getField fs "info").bind parseEntries, (getField fs "eid").bind String.toNat? with
-    | some info, some eid => natsHex (nameEncode info eid)
+    | some info, some eid =>
+      match nameEncodeChecked info eid with
+      | .ok b => natsHex b
+      | _ => "panic"
     | _, _ => "bad-case"
   else if op == "names.encsum" then
     match (getField fs "info").bind parseEntries, (getField fs "eid").bind String.toNat? with
-    | some info, some eid => summarize (nameEncode info eid)
+    | some info, some eid =>
+      match nameEncodeChecked info eid with
+      | .ok b => summarize b
+      | _ => "panic"
     | _, _ => "bad-case"
   else if op == "names.dec" then
     match (getField fs "b").bind hexNats with
@@ -188,17 +197,25 @@ def prefixes : List String := ["names."]
       | none => "malformed"
     | none => "bad-case"
   else if op == "names.namert" then
-    -- the property's prediction: the view of the Info comes back unchanged
-    match (getField fs "info").bind parseEntries with
-    | some info =>
-      let c := showEntries (info.filter fun e => e.val ≠ []).reverse
-      s!"{c.length};{fnv c}"
-    | none => "bad-case"
+    -- the property's prediction (C14_name_checked_roundtrip): the encoder refuses loudly, or the
+    -- view of the Info comes back unchanged
+    match (getField fs "info").bind parseEntries, (getField fs "eid").bind String.toNat? with
+    | some info, some eid =>
+      match nameEncodeChecked info eid with
+      | .ok _ =>
+        let c := showEntries (info.filter fun e => e.val ≠ []).reverse
+        s!"{c.length};{fnv c}"
+      | _ => "panic"
+    | _, _ => "bad-case"
   else if op == "names.postrt" then
     match (getField fs "n").bind String.toNat?, (getField fs "c").bind String.toNat? with
     | some n, some c =>
-      let s := showNames (some (genNames tbl n c))
-      s!"{n};{fnv s}"
+      -- prediction (C14_post_checked_roundtrip): refusal, or the list comes back unchanged
+      let names := genNames tbl n c
+      if names == tbl || postFits tbl names then
+        let s := showNames (some names)
+        s!"{n};{fnv s}"
+      else "panic"
     | _, _ => "bad-case"
   else if op == "names.tagext" then
     -- `otfToBCP47` then `Extension('x').String()`, with the assumed x/text canonical form
